@@ -13,6 +13,9 @@ func (t *tree) Insert(ctx context.Context, key, value []byte) error {
 	if value == nil {
 		value = []byte{}
 	}
+	if len(key) > maxKeySize {
+		return ErrKeyTooLarge
+	}
 
 	t.cache.Lock()
 	defer t.cache.Unlock()
